@@ -1,0 +1,94 @@
+//go:build verif
+
+// Contracts for package codec, read by /verif/govc. Comment lines starting with
+// "//@" are specifications; the Go functions below are executable forms of the
+// specification predicates, used as runtime oracles by replays.
+package codec
+
+//@ define predTokChar(b byte) bool = 33 <= b && b <= 126 && b != '.' && b != '*' && b != '>' && b != '?'
+
+//@ define predValidPart(s string) bool = len(s) > 0 && (forall k int :: 0 <= k && k < len(s) ==> predTokChar(s[k]))
+
+// predValidPrefix(s, n): s[:n] consists of non-empty tokens of token characters separated by single dots.
+//@ define predValidPrefix(s string, n int) bool = 0 < n && n <= len(s) && s[0] != '.' && s[n-1] != '.' &&
+//@     (forall k int :: 0 <= k && k < n ==> predTokChar(s[k]) || s[k] == '.') &&
+//@     (forall k int :: 0 <= k && k+1 < n ==> !(s[k] == '.' && s[k+1] == '.'))
+
+// predFirstQ(s, f): f is the position of the first '?' of s, or len(s) if there is none.
+//@ define predFirstQ(s string, f int) bool = 0 <= f && f <= len(s) && (f == len(s) || s[f] == '?') &&
+//@     (forall k int :: 0 <= k && k < f ==> s[k] != '?')
+
+// predValidRID(s, q): the part before the first '?' is a valid resource name; a query part needs q.
+//@ define predValidRID(s string, q bool) bool = exists f int :: predFirstQ(s, f) && predValidPrefix(s, f) && (f < len(s) ==> q)
+
+//@ define predValidName(s string) bool = predValidPrefix(s, len(s))
+
+//@ func IsValidRIDPart
+//@   ensures[C14] result == predValidPart(part)
+//@   assigns nothing
+//@   safety[C15]
+//@   loop 1 invariant forall k int :: 0 <= k && k < rangeidx1 ==> predTokChar(part[k])
+
+//@ func IsValidRID
+//@   ensures[C14] result == predValidRID(rid, allowQuery)
+//@   assigns nothing
+//@   safety[C15]
+//@   loop 1 invariant forall k int :: 0 <= k && k < rangeidx1 ==> predTokChar(rid[k]) || rid[k] == '.'
+//@   loop 1 invariant forall k int :: 0 <= k && k < rangeidx1 && rid[k] == '.' ==> k > 0 && rid[k-1] != '.'
+//@   loop 1 invariant start == (rangeidx1 == 0 || rid[rangeidx1-1] == '.')
+
+//@ func (*Meta).IsDirectResponseStatus
+//@   ensures[C17] result == (m != nil && m.Status != nil && 300 <= *m.Status && *m.Status < 600)
+//@   assigns nothing
+//@   safety[C15]
+
+//@ func (*Meta).IsValidStatus
+//@   ensures[C17] result == (m == nil || m.Status == nil || (300 <= *m.Status && *m.Status < 600))
+//@   assigns nothing
+//@   safety[C15]
+
+func specTokChar(b byte) bool {
+	return 33 <= b && b <= 126 && b != '.' && b != '*' && b != '>' && b != '?'
+}
+
+// SpecValidPart is the executable form of predValidPart.
+func SpecValidPart(s string) bool {
+	if len(s) == 0 {
+		return false
+	}
+	for i := 0; i < len(s); i++ {
+		if !specTokChar(s[i]) {
+			return false
+		}
+	}
+	return true
+}
+
+// SpecValidName is the executable form of predValidName.
+func SpecValidName(s string) bool {
+	n := len(s)
+	if n == 0 || s[0] == '.' || s[n-1] == '.' {
+		return false
+	}
+	for k := 0; k < n; k++ {
+		if !(specTokChar(s[k]) || s[k] == '.') {
+			return false
+		}
+		if k+1 < n && s[k] == '.' && s[k+1] == '.' {
+			return false
+		}
+	}
+	return true
+}
+
+// SpecValidRID is the executable form of predValidRID.
+func SpecValidRID(s string, q bool) bool {
+	f := len(s)
+	for k := 0; k < len(s); k++ {
+		if s[k] == '?' {
+			f = k
+			break
+		}
+	}
+	return SpecValidName(s[:f]) && (f == len(s) || q)
+}
